@@ -6,7 +6,8 @@
 EXTENDS TLC, FiniteSets
 
 CONSTANTS Kinds,   \* abstract kinds of baseline data: "ok", "dq", "poor", "dq_poor"
-          DTypes,  \* what is passed to predict: "own_reporting", "own_baseline", "foreign", "frame"
+          DTypes,  \* what is passed to predict: "own_reporting", "own_baseline", "foreign", "foreign2" (the data classes of the
+                   \* two other model families), "frame" (a bare DataFrame)
           TZs      \* "same", "other" (different UTC offset), "other_same_offset" (another zone that shares the
                    \* baseline zone's UTC offset throughout the reporting data)
 
@@ -41,7 +42,7 @@ Fit(k, ign) ==
 Predict(d, tz, ign) ==
     /\ UNCHANGED <<fitted, kind, mdq, stored>>
     /\ last' = Rec("predict", d, tz, ign,
-                   IF ~fitted \/ d \in {"foreign", "frame"} \/ tz # "same"
+                   IF ~fitted \/ d \in {"foreign", "foreign2", "frame"} \/ tz # "same"
                      THEN "SomeException"
                      ELSE IF mdq # {} /\ ~ign THEN "DisqualifiedModelError" ELSE "frame")
 
